@@ -343,7 +343,7 @@ def cmp_entry(ctx, case, kind, what, via, ver, exp, where, loc):
     return True
 
 
-def check_version_section(ctx, case, kind, sec, exp, loc, queries):
+def check_version_section(ctx, case, kind, sec, exp, loc, queries, fresh=None):
     K = KIND[kind]
     p = K['p']
     what = 'ver' + kind
@@ -472,6 +472,13 @@ def check_version_section(ctx, case, kind, sec, exp, loc, queries):
             ctx.fail('%s.get_version|hit|wrong-result' % what, 'index %#x is carried by (entry, aux) %r; got entry %r name %r with %r' % (
                 q, [(c, exp[c[0]]['fields']) for c in carriers][:3], gotf, gotn, gota), case)
 
+    # on the object that already answered everything above, and on a new section object whose first use is the interleaved one
+    known = _interleaved_use(ctx, case, kind, what, sec, queries, None)
+    if fresh is not None and known is not None:
+        try:
+            _interleaved_use(ctx, case, kind, what, fresh(), queries, known)
+        except Exception as e:  # noqa
+            ctx.fail_exc('%s.iter|several-consumers-at-once' % what, e, case)
     if kind != 'need':
         return
     call_hi('first-call-after-queries' if hi_mode == 'last' else 'call-after-queries')
@@ -487,6 +494,61 @@ def check_version_section(ctx, case, kind, sec, exp, loc, queries):
             ctx.count('has_indexes.%s' % exp_hi)
         elif r is not hi_calls[0][2]:
             ctx.fail('verneed.has_indexes|second-call-differs', '%s %r, %s %r' % (hi_calls[0][0], hi_calls[0][2], tag, r), case)
+
+
+def _interleaved_use(ctx, case, kind, what, sec, queries, known):
+    """Only reached when the plain walk and the queries were right.  One section object, several consumers at once: an outer
+    iter_versions() generator is suspended while a complete nested walk, get_version queries and (verneed) has_indexes run on the same
+    object; then the outer one is finished.  Every walk, and one more plain walk afterwards, must yield what the plain walk yielded."""
+    def flat(it):
+        return [(dict(v.entry), v.name, [(dict(a.entry), a.name) for a in auxs]) for v, auxs in it]
+    def qcanon(q):
+        r = sec.get_version(q)
+        if r is None:
+            return None
+        if kind == 'def':
+            return (dict(r[0].entry), r[0].name, [(dict(a.entry), a.name) for a in r[1]])
+        return (dict(r[0].entry), r[0].name, dict(r[1].entry), r[1].name)
+    try:
+        if known is None:
+            plain = flat(sec.iter_versions())
+            before_q = [qcanon(q) for q in list(queries)[:6]]
+        else:
+            plain, before_q = known             # first use of this object: nothing has walked it yet
+        outer = iter(sec.iter_versions())
+        head = flat([x for x in [next(outer, None)] if x is not None])
+        nested = flat(sec.iter_versions())
+        for q in list(queries)[:3]:
+            r = sec.get_version(q)
+            if r is not None and kind == 'def':
+                list(r[1])
+        if kind == 'need':
+            sec.has_indexes()
+        lock = iter(sec.iter_versions())      # a second suspended walk, advanced in lock step with the outer one
+        rest = []
+        for x in outer:
+            rest += flat([x])
+            y = next(lock, None)
+            if y is not None:
+                list(y[1])
+        after = flat(sec.iter_versions())
+        for tag, got in (('nested walk while another one is suspended', nested), ('walk that was suspended during other calls', head + rest),
+                         ('plain walk after the interleaved ones', after)):
+            if got != plain:
+                ctx.fail('%s.iter|several-consumers-at-once' % what, '%s: %d entries (plain walk: %d)%s' % (
+                    tag, len(got), len(plain), '' if len(got) != len(plain) else ', different contents'), case)
+                break
+        after_q = [qcanon(q) for q in list(queries)[:6]]
+        if after_q != before_q:
+            k = next(i for i, (a, b) in enumerate(zip(before_q, after_q)) if a != b)
+            ctx.fail('%s.get_version|after-interleaved-walks' % what, 'index %#x: before the interleaved walks %r, after them %r' % (
+                list(queries)[k], before_q[k], after_q[k]), case)
+        if len(plain) >= 2:
+            ctx.count('interleaved.%s' % kind)
+        return plain, before_q
+    except Exception as e:  # noqa
+        ctx.fail_exc('%s.iter|several-consumers-at-once' % what, e, case)
+        return None
 
 
 class _Raised:
@@ -590,7 +652,60 @@ def check_versym(ctx, case, sec, ndxs, symnames):
             break
 
 
+def run_far(ctx, case):
+    """Version sections whose displacements (vd_aux / vd_next / vda_next, vn_aux / vn_next / vna_next: all unsigned 32-bit words) are at
+    or above 2**31, in a file held by a sparse stream.  Written by hand: one section per kind, two entries, two auxiliaries each."""
+    from vf.enc.sparse import sparse_elf
+    cls, le, far = case['cls'], case['le'], case['far']
+    strtab = b'\0libfar.so\0FAR_1.0\0FAR_2.0\0base\0'
+    so = {n: strtab.index(n.encode() + b'\0') for n in ('libfar.so', 'FAR_1.0', 'FAR_2.0', 'base')}
+    secs = [{'name': '.dynstr', 'sh_type': 3, 'offset': 0x400, 'size': len(strtab), 'chunks': {0: strtab}}]
+    size = far + 0x200
+    exp = {}
+    # entry0 at 0: its auxiliaries at +far (vd_aux / vn_aux >= 2**31), the second entry at +far+0x100 (vd_next / vn_next >= 2**31)
+    d0 = {'vd_version': 1, 'vd_flags': 1, 'vd_ndx': 1, 'vd_cnt': 2, 'vd_hash': 0x1234, 'vd_aux': far, 'vd_next': far + 0x100}
+    d1 = {'vd_version': 1, 'vd_flags': 0, 'vd_ndx': 2, 'vd_cnt': 1, 'vd_hash': 0x5678, 'vd_aux': 0x20, 'vd_next': 0}
+    chunks = {0: enc_verdef(le, d0), far: enc_verdaux(le, {'vda_name': so['base'], 'vda_next': 0x40}),
+              far + 0x40: enc_verdaux(le, {'vda_name': so['FAR_1.0'], 'vda_next': 0}),
+              far + 0x100: enc_verdef(le, d1), far + 0x120: enc_verdaux(le, {'vda_name': so['FAR_2.0'], 'vda_next': 0})}
+    secs.append({'name': '.gnu.version_d', 'sh_type': SHT_GNU_verdef, 'offset': 0x1000, 'size': size, 'sh_link': 1, 'sh_info': 2, 'chunks': chunks})
+    exp['def'] = [(d0, ['base', 'FAR_1.0']), (d1, ['FAR_2.0'])]
+    n0 = {'vn_version': 1, 'vn_cnt': 2, 'vn_file': so['libfar.so'], 'vn_aux': far, 'vn_next': far + 0x100}
+    n1 = {'vn_version': 1, 'vn_cnt': 1, 'vn_file': so['libfar.so'], 'vn_aux': 0x20, 'vn_next': 0}
+    a = [{'vna_hash': 1, 'vna_flags': 0, 'vna_other': 3, 'vna_name': so['FAR_1.0'], 'vna_next': 0x40},
+         {'vna_hash': 2, 'vna_flags': 0, 'vna_other': 4, 'vna_name': so['FAR_2.0'], 'vna_next': 0},
+         {'vna_hash': 3, 'vna_flags': 0, 'vna_other': 5, 'vna_name': so['base'], 'vna_next': 0}]
+    chunks = {0: enc_verneed(le, n0), far: enc_vernaux(le, a[0]), far + 0x40: enc_vernaux(le, a[1]), far + 0x100: enc_verneed(le, n1),
+              far + 0x120: enc_vernaux(le, a[2])}
+    base2 = 0x1000 + size + 0x1000
+    secs.append({'name': '.gnu.version_r', 'sh_type': SHT_GNU_verneed, 'offset': base2, 'size': size, 'sh_link': 1, 'sh_info': 2, 'chunks': chunks})
+    exp['need'] = [(n0, ['FAR_1.0', 'FAR_2.0']), (n1, ['base'])]
+    stream, _ = sparse_elf(cls, le, secs)
+    try:
+        ef = lib()['ELFFile'](stream)
+        for kind, idx in (('def', 2), ('need', 3)):
+            sec = ef.get_section(idx)
+            got = [({k: v.entry[k] for k in e}, [x.name for x in auxs]) for (v, auxs), (e, _) in zip(sec.iter_versions(), exp[kind])]
+            if got != exp[kind] or sec.num_versions() != 2:
+                ctx.fail('far|ver%s|iter' % kind, 'displacements of %#x: expected %r got %r' % (far, exp[kind], got), case)
+            for q in ((1, 2) if kind == 'def' else (3, 4, 5)):
+                r = sec.get_version(q)
+                want = next(((e, n) for e, n in exp[kind] if e.get('vd_ndx') == q), None) if kind == 'def' else q
+                if r is None:
+                    ctx.fail('far|ver%s|get_version' % kind, 'index %d not found (displacements of %#x)' % (q, far), case)
+                elif kind == 'def' and [x.name for x in r[1]] != want[1]:
+                    ctx.fail('far|verdef|get_version', 'index %d: names %r' % (q, want[1]), case)
+                elif kind == 'need' and r[1].entry['vna_other'] != q:
+                    ctx.fail('far|verneed|get_version', 'index %d: got the auxiliary with vna_other %r' % (q, r[1].entry['vna_other']), case)
+    except Exception as e:  # noqa
+        ctx.fail_exc('far', e, case)
+    ctx.count('far.displacements')
+    ctx.case(('far', cls, le, far), True, dict(case))
+
+
 def run_case(ctx, case):
+    if case.get('far'):
+        return run_far(ctx, case)
     data, info = build_file(case)      # an exception here is a generator/encoder bug -> harness error
     ELFFile = lib()['ELFFile']
     idx = info['idx']
@@ -609,7 +724,8 @@ def run_case(ctx, case):
             ctx.fail_exc('ver%s.get_section' % kind, e, case)
             continue
         loc = (data, info['R']['sh'][idx[kind]]['sh_offset'], len(info[kind + '_data']))
-        check_version_section(ctx, case, kind, sec, info[kind], loc, case['queries'].get(kind, []))
+        check_version_section(ctx, case, kind, sec, info[kind], loc, case['queries'].get(kind, []),
+                              fresh=lambda kind=kind: ef.get_section(idx[kind]))
     if 'versym' in idx:
         try:
             sec = ef.get_section(idx['versym'])
@@ -877,6 +993,9 @@ def sweep(tier):
                 cases.append(build_model(ch, tier, {'cls': cls, 'le': le, 'present': ['def', 'need', 'versym'], 'n': 3,
                                                      'counts': [2, 1, 3], 'mode': mode, 'scheme': 'seq2', 'full_queries': True,
                                                      'nsym': 9}))
+    # displacements at and above 2**31 (sparse file)
+    for k, far in enumerate((0x7fffff00, 0x80000040, 0xaaaaaaa0, 0xfffffe00)):
+        cases.append({'far': far, 'cls': 64, 'le': bool(k % 2)})
     return cases
 
 
@@ -972,7 +1091,7 @@ def bulk(ctx, tier, shard, nshards):
     cases = sweep(tier)
     step = 8 if tier == 'quick' else 1
     for k, case in enumerate(cases):
-        if k % nshards != shard or (k // nshards) % step:
+        if k % nshards != shard or (k // nshards) % step or case.get('far'):
             continue
         bad, checked = referee_case(case)
         if bad:
@@ -989,7 +1108,8 @@ def floors(ctx):
             'sec.need.zero-entries', 'sec.versym.zero-entries', 'noncontiguous.def', 'noncontiguous.need', 'multi-aux.def',
             'multi-aux.need', 'query.def.hit', 'query.def.miss', 'query.need.hit', 'query.need.miss',
             'query.def.hit-duplicate', 'query.need.hit-duplicate', 'hidden-index.def', 'hidden-index.need',
-            'has_indexes.True', 'has_indexes.False', 'versym.ndx.named', 'versym.ndx.hidden', 'versym.ndx.plain']
+            'has_indexes.True', 'has_indexes.False', 'versym.ndx.named', 'versym.ndx.hidden', 'versym.ndx.plain', 'far.displacements',
+            'interleaved.def', 'interleaved.need']
     need += ['layout.%s.%s' % (k, m) for k in ('def', 'need') for m in MODES]
     for k in need:
         if c[k] == 0:
